@@ -23,6 +23,7 @@ from harness.core import exc_class
 F10 = 'F10-sanitize-path-glued-to-leading-prefix'
 F13 = 'F13-sanitize-raises-on-sibling-of-package-dir'
 F14 = 'F14-sanitize-top-level-entry-with-glued-suffix'
+F18 = 'F18-earlier-replacement-rewrites-later-word'
 
 NAME_ALPHA = 'abcxyzQR019'
 NAME_PUNCT = '._-,=:()[]+@#{}<>;!'
@@ -240,7 +241,10 @@ def find_leaks(s, limit=3):
     for i, c in enumerate(s):
         if c != '/' or (i > 0 and is_name_char(s[i - 1])):
             continue
+        # the LONGEST prefix of the rest of the word that exists (the first one would always be the
+        # top-level directory and make every leak look like finding F14)
         j = i + 1
+        best = None
         while j < n and not s[j].isspace():
             j += 1
             sub = s[i:j]
@@ -248,16 +252,17 @@ def find_leaks(s, limit=3):
                 continue
             try:
                 if os.path.lexists(sub):
-                    out.append((i, sub))
-                    break
+                    best = sub
             except (OSError, ValueError):
                 break
+        if best is not None:
+            out.append((i, best))
         if len(out) >= limit:
             break
     return out
 
 
-def leak_class(s, leak):
+def leak_class(s, leak, original_words=None):
     """F10: the leaked path is glued, inside its blank-delimited word, to a leading prefix that does
     not consist of quote characters only (such a word is not recognised as a path).
     F14: the word starts with the path, but what exists is an entry directly under "/" followed by
@@ -266,6 +271,13 @@ def leak_class(s, leak):
     k = i
     while k > 0 and not s[k - 1].isspace():
         k -= 1
+    e = i
+    while e < len(s) and not s[e].isspace():
+        e += 1
+    if original_words is not None and s[k:e] not in original_words:
+        # F18: the word holding the leak is not a word of the input: an earlier word's
+        # str.replace rewrote part of it, after which its own replacement found nothing
+        return F18
     prefix = s[k:i].replace('"', '').replace("'", '')
     if prefix != '':
         return F10
@@ -360,7 +372,7 @@ def sanitize_cases(ctx):
         seen = set()
         for s, lk in r['leaks']:
             for leak in lk:
-                cls = leak_class(s, leak)
+                cls = leak_class(s, leak, set(w for v in strings_of(r['value']) for w in v.split()))
                 if cls in seen:
                     continue
                 seen.add(cls)
